@@ -8,12 +8,12 @@ REPO=${VERIF_REPO:-/repo}
 ROOT=$(cd "$(dirname "$0")/.." && pwd)
 BD=$("$ROOT/tools/build_repo.sh" "$FLAV")
 OUT=$(dirname "$BD")/bin-$FLAV; mkdir -p "$OUT"
-SAN=""; [ "$FLAV" = asan ] && SAN="-fsanitize=address,undefined -fno-omit-frame-pointer"
+SAN=""; CCV=16; if [ "$FLAV" = asan ]; then SAN="-fsanitize=address,undefined -fno-omit-frame-pointer -fno-sanitize=alignment,function"; CCV=15; fi
 INC="-I$REPO -I$REPO/src -I$REPO/private -I$REPO/os -I$BD -I$BD/src -I$REPO/src/BlocksRuntime -I$ROOT/harness"
 DEFS="-DDISPATCH_VERIF=1 -DHAVE_CONFIG_H=1"
-SRC=$ROOT/harness/$DRV.c; CC=clang-16; STD="-std=gnu11"
-if [ -f "$ROOT/harness/$DRV.cpp" ]; then SRC=$ROOT/harness/$DRV.cpp; CC=clang++-16; STD="-std=gnu++17"; fi
-clang-16 -O1 -g $SAN -c "$ROOT/harness/verif_rt.c" -o "$OUT/verif_rt.o"
+SRC=$ROOT/harness/$DRV.c; CC=clang-$CCV; STD="-std=gnu11"
+if [ -f "$ROOT/harness/$DRV.cpp" ]; then SRC=$ROOT/harness/$DRV.cpp; CC=clang++-$CCV; STD="-std=gnu++17"; fi
+clang-$CCV -O1 -g $SAN -c "$ROOT/harness/verif_rt.c" -o "$OUT/verif_rt.o"
 $CC -O1 -g $SAN $STD -fblocks -Wno-everything $DEFS $INC ${EXTRA_CFLAGS} "$SRC" "$OUT/verif_rt.o" \
   "$BD/src/libdispatch.a" "$BD/src/BlocksRuntime/libBlocksRuntime.a" -lpthread -lrt -lstdc++ -lm ${EXTRA_LIBS} -o "$OUT/$DRV"
 echo "$OUT/$DRV"
